@@ -1,5 +1,124 @@
+import Agd.Model.Forward
 import Agd.Driver.Util
-/-! Line-protocol driver for the C17 model (stub: not built yet). -/
+/-! Line-protocol driver for the C17 model.
+
+```
+cfg <nMain> <nFb> <backoff>                    -> ok          (state := NewHandler state)
+q <main|-> <fb|-> <om,om,…|-> <ofb,ofb,…|->    -> a<tok>|sf  followed by the calls (m<u>, f<f>)
+rf <now> <okbits|->                            -> act=… lf=… probed=… err=0|1
+x <any|udp|tcp> <udpwire> <tcpwire>            -> ok<tok>|net|eof|other tcp=0|1
+v <reqId> <reqName> <reqType> <respId> <n> (<name> <type>)*   -> ok|id|count|type|name
+rd <n> <byte>*                                 -> none | id=… tc=… qs=name:type,…   (readMsg)
+```
+`<main>`/`<fb>` are the upstreams the implementation was seen to pick (the random choice is
+an input of the model).  An outcome is `r<tok>`, `n` (net.Error), `o` (other error), `z`
+(nil, nil) or `w.<net>.<udpwire>.<tcpwire>.<tok>`; a wire is one of
+`ok tc id nm cs ty q2 q0 bad net eof`. -/
 namespace Agd.Driver.C17
-def main : IO Unit := Agd.Driver.loop (fun (s : Unit) _ => (s, "bad-op")) ()
+open Agd.Forward Agd.Driver
+
+structure S where
+  cfg : Cfg := { nMain := 0, nFb := 0, backoff := 0 }
+  st : St := St.init { nMain := 0, nFb := 0, backoff := 0 }
+
+def reqId : Nat := 7
+def reqQ : Question := { name := [97, 98, 46], qtype := 1 }
+
+def wire (tok : Nat) : String → Wire
+  | "ok" => .msg { id := reqId, qs := [reqQ], tc := false, tok := tok }
+  | "tc" => .msg { id := reqId, qs := [reqQ], tc := true, tok := tok }
+  | "id" => .msg { id := reqId + 1, qs := [reqQ], tc := false, tok := tok }
+  | "nm" => .msg { id := reqId, qs := [{ name := [97, 99, 46], qtype := 1 }], tc := false, tok := tok }
+  | "cs" => .msg { id := reqId, qs := [{ name := [65, 98, 46], qtype := 1 }], tc := false, tok := tok }
+  | "ty" => .msg { id := reqId, qs := [{ name := [97, 98, 46], qtype := 28 }], tc := false, tok := tok }
+  | "q2" => .msg { id := reqId, qs := [reqQ, reqQ], tc := false, tok := tok }
+  | "q0" => .msg { id := reqId, qs := [], tc := false, tok := tok }
+  | "net" => .netErr
+  | "eof" => .eof
+  | _ => .bad
+
+def net : String → Net
+  | "udp" => .udp
+  | "tcp" => .tcp
+  | _ => .any
+
+def outcome (s : String) : Outcome :=
+  if s == "n" then .netErr
+  else if s == "o" then .otherErr
+  else if s == "z" then .noResp
+  else if s.startsWith "r" then .reply (nat! (s.drop 1).toString)
+  else match s.splitOn "." with
+    | ["w", n, u, t, tok] => (exchange (net n) reqId reqQ (wire (nat! tok) u) (wire (nat! tok) t)).1.outcome
+    | _ => .otherErr
+
+def outcomes (s : String) : Nat → Outcome :=
+  let l := if s == "-" then [] else (s.splitOn ",").map outcome
+  fun i => l.getD i .otherErr
+
+def showCall : Call → String
+  | .main u => s!"m{u}"
+  | .fb f => s!"f{f}"
+
+def showOut (o : ServeOut) : String :=
+  let r := match o.res with | .answered r => s!"a{r}" | .servfail => "sf"
+  " ".intercalate (r :: o.calls.map showCall)
+
+def showList (l : List Nat) : String :=
+  if l.isEmpty then "-" else ",".intercalate (l.map toString)
+
+def probedOf : List Ev → List Nat
+  | [] => []
+  | .probe u _ _ _ :: r => u :: probedOf r
+  | _ :: r => probedOf r
+
+def showV : VRes → String
+  | .ok => "ok" | .badId => "id" | .badCount => "count" | .badType => "type" | .badName => "name"
+
+def nameBytes (s : String) : List Nat := s.toList.map Char.toNat
+
+def parseQs : List String → List Question
+  | n :: t :: r => { name := nameBytes n, qtype := nat! t } :: parseQs r
+  | _ => []
+
+def step (s : S) : List String → S × String
+  | ["cfg", n, f, b] =>
+    let c : Cfg := { nMain := nat! n, nFb := nat! f, backoff := int! b }
+    ({ cfg := c, st := St.init c }, "ok")
+  | ["q", pm, pf, om, ofb] =>
+    let pick? : Option Nat :=
+      if s.st.active.isEmpty then (if pm == "-" then some 0 else none)
+      else if pm == "-" then none
+      else if s.st.active.contains (nat! pm) then some (s.st.active.idxOf (nat! pm)) else none
+    match pick? with
+    | none => (s, "bad-pick")
+    | some pick =>
+      let pickFb := if pf == "-" then 0 else nat! pf
+      if pf != "-" && pickFb ≥ s.cfg.nFb then (s, "bad-pick")
+      else (s, showOut (serve s.cfg s.st pick (outcomes om) pickFb (outcomes ofb)))
+  | ["rf", now, oks] =>
+    let bits := if oks == "-" then [] else oks.toList.map (· == '1')
+    let pr : Nat → Probe := fun u => { tCheck := int! now, ok := bits.getD u false, tFail := int! now }
+    let r := refresh s.cfg s.st pr
+    let lf := (List.range s.cfg.nMain).map fun u =>
+      match r.1.lastFailed u with | none => "-" | some t => toString t
+    ({ s with st := r.1 },
+      s!"act={showList r.1.active} lf={if lf.isEmpty then "-" else ",".intercalate lf} probed={showList (probedOf r.2.1)} err={showB r.2.2}")
+  | ["x", n, u, t] =>
+    let r := exchange (net n) reqId reqQ (wire 1 u) (wire 2 t)
+    let x := match r.1 with
+      | .ok m => s!"ok{m.tok}" | .netErr => "net" | .eof => "eof" | .other => "other"
+    (s, s!"{x} tcp={showB r.2}")
+  | "v" :: rid :: rn :: rt :: pid :: _ :: rest =>
+    (s, showV (validate (nat! rid) { name := nameBytes rn, qtype := nat! rt }
+      { id := nat! pid, qs := parseQs rest, tc := false, tok := 0 }))
+  | "rd" :: n :: bytes =>
+    match readMsg (bytes.map (nat! ·)) (nat! n) with
+    | none => (s, "none")
+    | some m =>
+      let qs := m.qs.map fun q => s!"{String.ofList (q.name.map Char.ofNat)}:{q.qtype}"
+      (s, s!"id={m.id} tc={showB m.tc} qs={if qs.isEmpty then "-" else ",".intercalate qs}")
+  | _ => (s, "bad-op")
+
+def main : IO Unit := loop step {}
+
 end Agd.Driver.C17
